@@ -49,6 +49,17 @@ func classesOf(s Stats, p Program) []string {
 	add(p.Spec.EncKeyLen > 0, "encrypted")
 	add(p.Spec.Compression > 0, "compressed")
 	add(s.Excluded > 0, "excluded_known")
+	add(s.HitKnown > 0, "stopped_at_known_finding")
+	add(s.ReadOnlyOpens > 0, "readonly_open")
+	add(s.MultiTableLevel > 0, "multi_table_level")
+	add(s.ThresholdCrossed > 0, "dynamic_threshold_moved")
+	add(s.ExpiredObserved > 0, "expired_observed")
+	add(s.CompactAfterExpiry > 0, "compaction_after_expiry")
+	add(s.HeldItems > 0, "held_get_item")
+	add(s.ManagedLowerWrite > 0, "managed_write_below_existing")
+	add(s.DiscardMoves > 0, "discardts_raised")
+	add(s.CommitsAfterReopen > 0, "commit_after_reopen")
+	add(s.CompactedMultiVersion > 0, "compacted_multiversion_key")
 	return c
 }
 
@@ -79,5 +90,147 @@ func TestC12_CompactionPreservesReads(t *testing.T) {
 		nontrivial: func(s Stats, p Program) bool {
 			return s.Compactions > 0 && (s.Deletes > 0 || s.Overwrites > 0) && s.LevelsMax >= 2
 		},
+	})
+}
+
+// ---- more properties on the same interpreter -------------------------------------------------------
+
+var wSnapshot = map[string]int{"race": 2, "rwscan": 2, "txn": 10, "begin": 6, "set": 3, "del": 1, "get": 8, "gethold": 2, "itemread": 2, "iter": 6, "iterdrain": 2,
+	"commit": 3, "discard": 1, "flush": 4, "compact": 6, "backdate": 1, "gc": 2, "clock": 2, "fill": 3, "churn": 2, "l0l0": 1, "deepen": 1}
+
+func TestC01_SnapshotReads(t *testing.T) {
+	runProp(t, propDef{id: "C01", part: "snapshot",
+		rule: "rapid-generated multi-transaction programs on one goroutine (up to 4 open read-only/read-write transactions interleaved at API-call granularity with commits of other transactions, Flush, picker-driven Compact incl. L0->L0, GC, table backdating, virtual-clock advances; TTL entries; iterators and Get items held open across those steps; all option combinations incl. in-memory, encryption, compression, managed). Every Get, iterator item and value read by every transaction is compared with the reference MVCC model at that transaction's read timestamp (own pending writes layered on top). Non-trivial = a transaction read a key after a later commit or a flush/compaction/GC happened while it was open, with >=2 transactions open at once and >=1 flush or compaction in the program.",
+		cfg:  GenCfg{DB: dbx.GenCfg{AllowInMemory: true, AllowManaged: true, AllowEnc: true}, MinOps: 10, MaxOps: 60, Weights: wSnapshot, Hold: true, TTL: true, BigValues: true},
+		nontrivial: func(s Stats, p Program) bool {
+			return s.ReadsAcrossMaint > 0 && s.ConcurrentTxnReads > 0 && s.Flushes+s.Compactions+s.GCRewrites > 0
+		},
+	})
+}
+
+var wSSI = map[string]int{"begin": 6, "set": 6, "del": 2, "get": 6, "iter": 4, "commit": 6, "discard": 1, "txn": 4, "race": 6, "rwscan": 2, "flush": 1, "compact": 1, "discardts": 1}
+
+func TestC02_SSI(t *testing.T) {
+	runProp(t, propDef{id: "C02", part: "sequential",
+		rule: "rapid-generated programs with DetectConflicts on, normal and managed mode: up to 4 overlapping read-write transactions on 3-8 keys doing Get / iterator items / Seek / Set / Delete, committed in generated order (managed: caller timestamps, discard timestamp raised in between), long-running transactions that stay open across many commits. Oracle (exact, both directions): Commit returns ErrConflict iff a tracked read key (Get outside own writes, yielded iterator item, Seek key) was written by a transaction whose commit timestamp is above the reader's read timestamp; a rejected transaction's writes never become visible (model comparison of all later reads). Non-trivial = program with >=1 ErrConflict and >=2 successful commits.",
+		cfg: GenCfg{DB: dbx.GenCfg{AllowManaged: true}, MinOps: 10, MaxOps: 50, Weights: wSSI, MinKeys: 2, MaxKeys: 6, MaxFan: 1,
+			FixSpec: func(s *dbx.Spec) { s.DetectConflicts = true }},
+		nontrivial: func(s Stats, p Program) bool { return s.Conflicts > 0 && s.Commits >= 2 },
+	})
+}
+
+var wPending = map[string]int{"txn": 8, "rwscan": 10, "begin": 3, "set": 6, "del": 2, "get": 4, "iter": 6, "commit": 2, "discard": 1, "flush": 1, "compact": 1, "clock": 1}
+
+func TestC04_OwnWrites(t *testing.T) {
+	runProp(t, propDef{id: "C04", part: "pending",
+		rule:       "rapid-generated programs dominated by Set/SetEntry(meta, TTL past/now/future, WithDiscard)/Delete/Get and iterators (forward/reverse, Prefix, SinceTs, AllVersions, key iterators, Seek) created after some writes inside read-write transactions, over a committed snapshot sharing the same keys, with other transactions reading concurrently. Oracle = model overlay: a pending entry appears at version readTs and wins over a committed entry with the same internal key, a pending delete hides the key; other transactions never see pending data. Non-trivial = an iterator ran over >=1 pending write that shadows a committed version of the same key.",
+		cfg:        GenCfg{DB: dbx.GenCfg{AllowInMemory: true, AllowManaged: true}, MinOps: 10, MaxOps: 40, Weights: wPending, TTL: true, Discard: true, MinKeys: 3, MaxKeys: 8, MaxFan: 2},
+		nontrivial: func(s Stats, p Program) bool { return s.PendingShadow > 0 },
+	})
+}
+
+var wIter = map[string]int{"txn": 8, "begin": 4, "set": 2, "get": 1, "iter": 16, "commit": 2, "flush": 5, "compact": 5, "fill": 5, "deepen": 2, "l0l0": 1, "reopen": 1, "clock": 1}
+
+func TestC05_Iterators(t *testing.T) {
+	runProp(t, propDef{id: "C05", part: "iterators",
+		rule: "rapid-generated layouts (keys over {00,01,a,b,FE,FF} that are prefixes of one another, fanned out to up to 96 keys; version histories spread by Flush/Compact/deepen macros over memtable, several L0 tables and deeper levels) and iterator programs: Rewind/Seek/Next with Reverse, Prefix (seeks inside the prefix incl. the prefix+0xFF idiom), SinceTs, AllVersions, NewKeyIterator, PrefetchValues on/off, PrefetchSize {0,1,2,100}. Oracle = model.Scan: exact sequence for non-AllVersions; for AllVersions mustRetain ⊆ seen ⊆ written in iterator order. Non-trivial = program iterated with at least two of {reverse, prefix, SinceTs, AllVersions} over a tree with >=2 levels after >=1 flush.",
+		cfg:  GenCfg{DB: dbx.GenCfg{AllowInMemory: true, AllowManaged: true, AllowEnc: true, KeepVersions: []int{1, 2, 0}}, MinOps: 10, MaxOps: 50, Weights: wIter, TTL: true, Discard: true, BigValues: true},
+		nontrivial: func(s Stats, p Program) bool {
+			n := 0
+			for _, v := range []int{s.IterRev, s.IterPrefix, s.IterSince, s.IterAll} {
+				if v > 0 {
+					n++
+				}
+			}
+			return n >= 2 && s.LevelsMax >= 2 && s.Flushes > 0
+		},
+	})
+}
+
+var wValues = map[string]int{"txn": 12, "begin": 3, "set": 6, "get": 6, "gethold": 1, "itemread": 1, "iter": 5, "commit": 3, "flush": 3, "compact": 3, "gc": 2, "churn": 2, "reopen": 2, "fill": 3}
+
+func TestC06_ValuesRoundTrip(t *testing.T) {
+	runProp(t, propDef{id: "C06", part: "values",
+		rule: "rapid-generated programs writing values of sizes {0,1,5,T-1,T,T+1,2T,block+-1,700,4096} around the value threshold T (static, or dynamic with VLogPercentile 0.5/0.99 so the threshold moves during the run) with user-meta bytes, expiry and the discard-earlier flag, read back through Get, Item.Value, Item.ValueCopy, prefetching and non-prefetching iterators (all options), before and after Flush, Compact, GC, re-open. Oracle = exact equality of value bytes, user meta, expiry, version and discard flag with the model. Non-trivial = values on both sides of the threshold were written and read after the dynamic threshold moved or after a flush+compaction.",
+		cfg:  GenCfg{DB: dbx.GenCfg{AllowEnc: true, AllowManaged: true}, MinOps: 10, MaxOps: 50, Weights: wValues, TTL: true, Discard: true, BigValues: true},
+		nontrivial: func(s Stats, p Program) bool {
+			return s.VlogValues > 0 && (s.ThresholdCrossed > 0 || (s.Flushes > 0 && s.Compactions > 0))
+		},
+	})
+}
+
+var wReopen = map[string]int{"txn": 10, "begin": 2, "set": 3, "get": 2, "iter": 2, "commit": 2, "flush": 3, "compact": 3, "gc": 1, "churn": 1, "reopen": 6, "fill": 3, "deepen": 1}
+
+func TestC07_CloseReopen(t *testing.T) {
+	runProp(t, propDef{id: "C07", part: "reopen",
+		rule:       "rapid-generated histories (transactions, flushes, compactions, GC) with Close -> Open cycles in three modes: read-write, read-write with different compaction settings (L0 table count, table/level sizes, level multiplier, CompactL0OnClose), and read-only followed by read-write. After every open the full state (Get of every key, forward/reverse/all-versions scans) is compared with the model; around a read-only session the SHA-256 digest of all files (names, sizes, contents; LOCK excluded) must be identical before, during and after. Non-trivial = a close with a non-empty memtable or after >=1 compaction, followed by a re-open and further reads, with >=1 value in the value log.",
+		cfg:        GenCfg{DB: dbx.GenCfg{AllowEnc: true, AllowManaged: true, KeepVersions: []int{1, 2, 0}}, MinOps: 8, MaxOps: 50, Weights: wReopen, TTL: true, BigValues: true},
+		nontrivial: func(s Stats, p Program) bool { return s.Reopens > 0 && s.VlogValues > 0 && s.Commits > 0 },
+	})
+}
+
+func TestC11_TimestampsAfterReopen(t *testing.T) {
+	runProp(t, propDef{id: "C11", part: "reopen",
+		rule:       "rapid-generated histories ending in clean Close/Open cycles (incl. CompactL0OnClose, changed compaction settings, read-only sessions), followed by new commits to existing keys. Oracle: every commit's observed timestamp is above DB.MaxVersion() taken just before it, above the previous commit's timestamp and above the transaction's read timestamp; reads at new timestamps return the new writes (model comparison). Timestamp restart after a compaction dropped all entries of the newest commits is accepted (nothing stored is above the restart point). Non-trivial = >=1 commit to an existing key after a re-open, with data in >=1 flushed table.",
+		cfg:        GenCfg{DB: dbx.GenCfg{AllowEnc: true, KeepVersions: []int{1, 2}, ForceNormal: true}, MinOps: 8, MaxOps: 50, Weights: wReopen, BigValues: true},
+		nontrivial: func(s Stats, p Program) bool { return s.CommitsAfterReopen > 0 && s.Flushes > 0 && s.Overwrites > 0 },
+	})
+}
+
+var wRetention = map[string]int{"txn": 14, "begin": 3, "get": 1, "iter": 4, "commit": 2, "discard": 1, "flush": 4, "compact": 8, "clock": 2, "fill": 2, "l0l0": 1, "deepen": 1, "discardts": 3, "reopen": 1}
+
+func TestC13_Retention(t *testing.T) {
+	runProp(t, propDef{id: "C13", part: "retention",
+		rule:       "rapid-generated version histories (few keys, many overwrites, deletes, WithDiscard entries, TTL entries with a virtual clock) under NumVersionsToKeep in {1,2,3,unbounded}, with the watermark held back by open transactions (normal mode) or moved by SetDiscardTs (managed), and multi-step compactions. Oracle: after every compaction an AllVersions scan must contain every version in mustRetain (all versions above the largest watermark any compaction can have seen; below it the newest N non-merge versions up to and excluding a delete/expired entry, up to and including a discard-earlier entry) and only written versions, in order. Non-trivial = a key with >=2 versions went through >=1 compaction while NumVersionsToKeep > 1 or a transaction/discard timestamp held the watermark back.",
+		cfg:        GenCfg{DB: dbx.GenCfg{AllowManaged: true, AllowInMemory: true, KeepVersions: []int{1, 2, 3, 0}}, MinOps: 10, MaxOps: 60, Weights: wRetention, TTL: true, Discard: true, MinKeys: 2, MaxKeys: 6},
+		nontrivial: func(s Stats, p Program) bool { return s.CompactedMultiVersion > 0 && s.IterAll > 0 },
+	})
+}
+
+func TestC14_Structure(t *testing.T) {
+	runProp(t, propDef{id: "C14", part: "structure",
+		rule: "rapid-generated histories of writes, flushes, picker-driven compactions (incl. split sub-compactions on multi-table levels), GC and re-opens with small table sizes. After every maintenance step: the production level validation passes, every level >=1 is sorted and its tables are disjoint by USER key (stronger than validate(): all versions of a key in one table); after every Open the *.sst files on disk are exactly the tables of the tree. Non-trivial = some level >=1 held >=2 tables after a compaction.",
+		cfg: GenCfg{DB: dbx.GenCfg{AllowEnc: true, AllowManaged: true, KeepVersions: []int{1, 3, 0}}, MinOps: 10, MaxOps: 50, BigValues: true,
+			Weights: map[string]int{"txn": 6, "fill": 8, "deepen": 4, "flush": 4, "compact": 8, "l0l0": 1, "reopen": 2, "gc": 1, "iter": 1},
+			FixSpec: func(s *dbx.Spec) { s.BaseTableSize = 1 << 11; s.MemTableSize = 1 << 15 }},
+		nontrivial: func(s Stats, p Program) bool { return s.MultiTableLevel > 0 && s.Compactions > 0 },
+	})
+}
+
+var wExpiry = map[string]int{"txn": 12, "begin": 3, "set": 4, "get": 8, "iter": 5, "commit": 2, "flush": 3, "compact": 5, "gc": 1, "clock": 8, "churn": 1, "reopen": 1}
+
+func TestC33_Expiry(t *testing.T) {
+	runProp(t, propDef{id: "C33", part: "expiry",
+		rule: "rapid-generated histories mixing entries with ExpiresAt relative to a virtual clock (already past, exactly now, +1..+100 s, none), deletes and overwrites, with clock advances between reads, flushes, compactions, GC and re-opens; read through Get and all iterator kinds. Oracle: an entry is returned iff expiresAt == 0 or clock < expiresAt; an expired newest version hides older versions like a delete; a newer non-expiring write is visible. Non-trivial = an entry was observed expired (after being written live) and a compaction ran afterwards.",
+		cfg:  GenCfg{DB: dbx.GenCfg{AllowInMemory: true, AllowManaged: true, AllowEnc: true, KeepVersions: []int{1, 2, 0}}, MinOps: 10, MaxOps: 60, Weights: wExpiry, TTL: true, Discard: true, MinKeys: 2, MaxKeys: 8},
+		nontrivial: func(s Stats, p Program) bool {
+			return s.ExpiredObserved > 0 && s.CompactAfterExpiry > 0 && s.ClockAdvances > 0
+		},
+	})
+}
+
+var wManaged = map[string]int{"txn": 12, "begin": 5, "set": 4, "del": 1, "get": 8, "iter": 5, "commit": 5, "discard": 1, "flush": 3, "compact": 5, "discardts": 4, "fill": 2, "reopen": 1}
+
+func TestC36_Managed(t *testing.T) {
+	runProp(t, propDef{id: "C36", part: "managed",
+		rule: "rapid-generated managed-mode programs: NewTransactionAt(readTs), CommitAt(ts) with non-monotonic caller timestamps (1..60, bumped only to respect the documented discipline: above the discard timestamp, not equal to an existing version of a written key), reads at arbitrary timestamps >= discardTs, SetDiscardTs raises, Flush/Compact in between. Oracle: every read at ts returns the newest model version <= ts, Item.Version equals the caller's commit timestamp, and raising the discard timestamp plus compacting never changes reads at or above it. Non-trivial = >=1 commit below an existing version of the same key and >=1 compaction after a discard-timestamp raise.",
+		cfg:  GenCfg{DB: dbx.GenCfg{ForceManaged: true, AllowInMemory: true, KeepVersions: []int{1, 2, 0}}, MinOps: 10, MaxOps: 60, Weights: wManaged, TTL: true, MinKeys: 2, MaxKeys: 8},
+		nontrivial: func(s Stats, p Program) bool {
+			return s.ManagedLowerWrite > 0 && s.DiscardMoves > 0 && s.Compactions > 0
+		},
+	})
+}
+
+func TestC19_BloomDB(t *testing.T) {
+	runProp(t, propDef{id: "C19", part: "db",
+		rule: "rapid-generated multi-table DBs built with bloom filters on (false-positive setting 0.01 or 0.5 on every table of every level), then Get of every key and key iterators (the bloom-filtered paths) compared with the model. Non-trivial = >=3 tables in the tree when keys were probed.",
+		cfg: GenCfg{DB: dbx.GenCfg{AllowInMemory: true, AllowEnc: true}, MinOps: 8, MaxOps: 40,
+			Weights: map[string]int{"txn": 6, "fill": 8, "flush": 6, "compact": 4, "get": 8, "iter": 6, "begin": 3, "deepen": 2},
+			FixSpec: func(s *dbx.Spec) {
+				if s.BloomFP == 0 {
+					s.BloomFP = 0.5
+				}
+			}},
+		nontrivial: func(s Stats, p Program) bool { return s.TablesMax >= 3 },
 	})
 }
